@@ -1498,6 +1498,21 @@ function mergeProjections(a: any, b: any): any {
     }
     return out;
   }
+  // Map / Set: both projections come from the same input, entry by entry in its iteration order
+  if (a instanceof Map && b instanceof Map) {
+    const ea = [...a.entries()];
+    const eb = [...b.entries()];
+    if (ea.length === eb.length) {
+      return new Map(ea.map(([k, v], i) => [mergeProjections(k, eb[i][0]), mergeProjections(v, eb[i][1])]));
+    }
+  }
+  if (a instanceof Set && b instanceof Set) {
+    const ea = [...a];
+    const eb = [...b];
+    if (ea.length === eb.length) {
+      return new Set(ea.map((v, i) => mergeProjections(v, eb[i])));
+    }
+  }
   return b;
 }
 
